@@ -18,6 +18,7 @@ def instances(tier):
         add(e, 2 if q else 3, 0, 0, 0, ALL, T[0])
         add(e, 2, 0, 3, 0, ALL, T[0] + ', array full at capacity 3')
         add(e, 2, 0, 2, 2, ALL, T[2])
+        add(e, 2, 0, 0, 2, ALL, T[2] + ' (clone of an empty array)')
         add(e, 2, 8, 3, 1, ALL, T[1])
         add(e, 1, 0, 6, 0, ALL, T[0] + ', array full at capacity 6')
         add(e, 1, 0, 12, 0, NOSORT, T[0] + ', array full at capacity 12')
